@@ -502,8 +502,12 @@ class Shell:
 
         vm = self.debugger.vm
         opc = vm.pc
-        for op in program.code:
-            op.execute(vm)
+        try:
+            for op in program.code:
+                op.execute(vm)
+        except SystemExit:
+            # An __eval that fails has already reported its error; stay in the debugger.
+            pass
         vm.pc = opc
 
     @mutates
